@@ -349,6 +349,30 @@ def register(cat, simple, binary, with_scalar, _perm, _dims_subset, gen_ttm, run
     with_scalar("TT.mul_scalar", "TT", lambda a, s: a * s)
     with_scalar("TT.rmul_scalar", "TT", lambda a, s: s * a)
     op("TT.permute", "TT", lambda c, r: {"operands": [r], "perm": _perm(c.g, c.obj(r).ndims, identity=c.g.random() < 0.4)}, lambda eng, ops, st: ops[0].permute(np.array(st["perm"])), weight=1.5)
+    # ---- sparse matricised tensor from a caller-owned scipy COO matrix (stored triplets in arbitrary order)
+    def gen_STM_from_coo(c, r):
+        tshape = list(c.g.choice(c.heap_families()))
+        n = len(tshape)
+        if n < 2:
+            return None
+        rd = _dims_subset(c.g, n, 1, n - 1)
+        cd = [d for d in range(n) if d not in rd]
+        rows = int(np.prod([tshape[d] for d in rd]))
+        cols = int(np.prod([tshape[d] for d in cd]))
+        cells = [(i, j) for i in range(rows) for j in range(cols)]
+        chosen = c.g.sample(cells, c.g.randint(1, min(6, len(cells))))
+        c.g.shuffle(chosen)
+        trip = {"data": [rnd(c.g) or 1.5 for _ in chosen], "row": [p[0] for p in chosen], "col": [p[1] for p in chosen], "shape": [rows, cols]}
+        return {"operands": [c.fresh_coo(triplets=trip)], "rdims": rd, "cdims": cd if c.g.random() < 0.5 else None, "tshape": tshape}
+
+    def run_STM_from_coo(eng, ops, st):
+        kw = {"rdims": np.array(st["rdims"], dtype=int), "tshape": tuple(st["tshape"])}
+        if st["cdims"] is not None:
+            kw["cdims"] = np.array(st["cdims"], dtype=int)
+        return ttb.sptenmat.from_array(ops[0], **kw)
+
+    op("STM.from_array_coo", None, gen_STM_from_coo, run_STM_from_coo, weight=0.5)
+
     # ---- Tucker tensors whose factor matrices are scipy COO matrices (documented as accepted by the constructor)
     def gen_TT_sparse_factors(c, r):
         core = c.obj(r)
